@@ -117,6 +117,33 @@ Proof.
   repeat split; vm_compute; reflexivity.
 Qed.
 
+(* Seeded change C06/6 at the level of the Vec: an uninitialised resize that reserves `rows - capacity` (counted by
+   `Vec::reserve` from len) leaves rows() ABOVE capacity() as soon as the buffer has slack and the request exceeds the
+   capacity by no more than the slack — the reuse history N rows, fewer, more than N of the corpus (y1-y8) — whatever
+   std would have chosen; reserving from len (and the `Vec::resize_with` of the code) keeps rows() <= capacity(). *)
+Theorem fp_resize_reserve_from_capacity_refuted : forall b n nc,
+  0 <= cb_rows b < cb_cap b -> cb_cap b < n <= cb_cap b + (cb_cap b - cb_rows b) ->
+  cb_cap (cb_resize_uninit_seeded b n nc) < cb_rows (cb_resize_uninit_seeded b n nc).
+Proof. exact cb_resize_uninit_seeded_overflows. Qed.
+
+Theorem fp_resize_holds_rows : forall b n nc,
+  cb_rows (cb_resize b n nc) = n /\ n <= cb_cap (cb_resize b n nc).
+Proof.
+  intros b n nc. pose proof (cb_resize_fits b n nc) as H. rewrite cb_resize_rows in H.
+  split; [apply cb_resize_rows | exact H].
+Qed.
+
+Theorem fp_resize_uninit_from_len_holds_rows : forall b n nc,
+  0 <= cb_rows b <= cb_cap b -> 0 <= n ->
+  cb_rows (cb_resize_uninit b n nc) <= cb_cap (cb_resize_uninit b n nc).
+Proof. exact cb_resize_uninit_fits. Qed.
+
+Example fp_resize_reuse_witness :
+  let b := cb_resize (cb_resize (mkCB 0 0) 40 40) 7 0 in
+  (b = mkCB 7 40) /\ (cb_resize_uninit_seeded b 50 0 = mkCB 50 40) /\
+  (cb_resize b 50 80 = mkCB 50 80) /\ (cb_resize_uninit b 50 80 = mkCB 50 80).
+Proof. vm_compute. repeat split; reflexivity. Qed.
+
 (* ===================== B. initialisation ===================== *)
 
 (* `StripedSequence::sample`: every cell of every row of the uninitialised matrix is written *)
